@@ -7,13 +7,29 @@ LEVEL = "proof"
 ENGINE = "E-coq+E-sched"
 TRIVIAL_TAGS = {"t", "rejected"}
 ASSUMPTIONS = bc.ASSUMPTIONS_COMMON + [
+    "distinct processor objects share no hidden state: not a theorem - probed at run time by harness/batch_purity.cc (real threads, each driving its own batch/simple span/log processor, under ThreadSanitizer; result compared with the single-threaded reference)",
     "'dropped' records are those the queue refused (buf add .. 0) or whose OnEnd found the processor shut down; records accepted by the queue after the worker's final drain (an OnEnd racing with Shutdown) are neither exported nor counted as loss: they were not 'ended before the processor was shut down'",
 ]
 TRUSTED = bc.TRUSTED_COMMON
 
 
+def build_driver():
+    """the scheduler-shim driver + the ThreadSanitizer independence probe (harness/batch_purity.cc: real threads, each driving its
+    OWN batch / simple span / log processor); PURITY lines go to the probe (tools/purity.py)"""
+    import os
+    from tools import purity, vlib
+    main = bc.build_driver()
+    dirs = ("/sdk/src/trace/", "/sdk/src/logs/", "/sdk/src/common/", "/sdk/src/resource/", "/sdk/src/version/")
+    sdk_rel = [os.path.relpath(f, vlib.REPO) for f in vlib.sdk_sources() if any(d in f for d in dirs)]
+    probe = purity.build_probe("batch_purity", ["harness/batch_purity.cc"], sdk_srcs=sdk_rel)
+    return purity.make_dispatcher("c01_dispatch", main, probe)
+
+
 def gen(rng, tier):
-    return bc.gen_with(rng, tier, 7, 2, 1)
+    k = 1 if tier == "quick" else 4
+    # PURITY <burst size> <threads> <rounds> <iters>: every operation builds its own processor + exporter
+    probes = ["PURITY 3 4 %d 1" % (6 * k), "PURITY 5 3 %d 2" % (4 * k), "PURITY 1 2 %d 3" % (4 * k)]
+    return bc.gen_with(rng, tier, 7, 2, 1) + probes
 
 
 LEVEL_TEXT = ("Theorems in coq/Properties_C01.v about an acceptor LTS of the batch span/log processors (any number of threads, any queue/batch size, "
